@@ -244,7 +244,8 @@ def main(argv=None):
 
     describe = dict(
         level="other",
-        rule="4 graph shapes (L from a shared leaf directly / through a view / reduced / through a shared intermediate, with a second result z) "
+        rule="6 graph shapes (the 4 listed next, plus: the OTHER graph built through a view of the shared leaf; a shared CONSTANT tensor with the other graph "
+             "through a view of it); events include raw memory writes `t.data[...] = fresh symbols` that the memory guard must refuse; 4 graph shapes (L from a shared leaf directly / through a view / reduced / through a shared intermediate, with a second result z) "
              "x every sequence of <= 3 events (thorough: + a quarter of the 4-event sequences) from the event list, then L.backward(); "
              "non-trivial = history executed to the end",
         explanation="histories are enumerated; data symbolic. L's forward term is recorded when L is created. Outcome must be "
